@@ -89,8 +89,13 @@ def main(tier_):
             space += len(sites) * len(CATALOGUE)
             if quick:
                 # first use (cold) is where initialisation lives: denser there
-                k = 10 if bc.get("cold") else 3
-                chosen = rnd.sample(sites, min(k, len(sites)))
+                if bc.get("cold") and j == 0:
+                    # the first call of a fresh process initialises the global procfs handle (and, on the
+                    # emulated backend, the sysctl cache): every site of that prefix, plus a sample of the rest
+                    head = sites[:24]
+                    chosen = head + rnd.sample(sites[24:], min(6, max(0, len(sites) - 24)))
+                else:
+                    chosen = rnd.sample(sites, min(3, len(sites)))
             else:
                 chosen = sites
             for (i, nr, cls) in chosen:
